@@ -11,7 +11,10 @@ PAYLOADS = [
     '<script>alert(1)<.script>', '"><img src=x onerror=alert(1)>', "'><svg onload=1>", '&lt;b&gt;', '&#60;b&#62;',
     'a"b\'c', '-->', '<!--', ']]><x>', '<![CDATA[', '" onmouseover="x', "' onmouseover='x", '&amp;quot;', '<A HREF="javascript:1">',
     '&', '<', '>', '"', "'", '&"<>\'', '</TT></A><H1>x', '<input name=q>', '$(x)', '<go href="x">', '</p></card><card id="e">',
+    # entity look-alikes TOGETHER with markup (a "do not double-escape" heuristic must not switch escaping off)
+    '&amp;<img src=x onerror=1>', '&#38;"><svg onload=1>', '&lt;<b>&gt;', '&quot;" x="y',
 ]
+ALWAYS = ['"><img src=x onerror=alert(1)>', '&amp;<img src=x onerror=1>', '&#38;"><svg onload=1>']
 INERT = "inert"
 
 
@@ -50,6 +53,9 @@ def mk_tree(p, mtime=1_700_000_000):
         {"path": "abs.txt.keywords", "data": h("+VIEWS:\nkw " + p + "\x0b+X:\x0c+Y:\x1c+Z:\x85+W:\u2028+V:\n".encode("utf-8").decode("latin-1"),
                                                "views\nkw inert\nx\ny\nz\nw\nv\n")},
         {"path": ".abstract", "data": "root abstract " + p + "\n"},
+        {"path": "long.txt", "data": "x\n"},
+        {"path": "long.txt.abstract", "data": h(("+ADMIN: +INFO: +VIEWS: +X: " * 24).strip() + "\n" + ("word " * 30 + "+ABSTRACT: ") * 4 + "\n",
+                                                ("inert words here now and " * 24).strip() + "\n" + ("word " * 30 + "plain words ") * 4 + "\n")},
         {"path": "umn", "kind": "dir"},
         {"path": "umn/one.txt", "data": "1\n"},
         {"path": "umn/.Links", "data": "Name=N " + p + "\nType=1\nPath=/pub/" + p + "\nHost=h" + p + ".example\nPort=70\n\n"
@@ -86,7 +92,7 @@ def mk_requests(p):
         for n in (b"1", b"2", b"3"):
             R.append((f"{proto}:mail-{n.decode()}", b"GET " + pre + b"/mail.mbox%7C/MBOX-MESSAGE/" + n + b" HTTP/1.0\r\n\r\n", tls))
         R.append((f"{proto}:head", b"HEAD " + pre + b"/f1-" + gen.pct(p.replace("/", "_").encode(), safe=b"") + b".txt HTTP/1.0\r\n\r\n", tls))
-    for path in (b"/", b"/umn", b"/maps", b"/abs.txt", b"/mail.mbox", b"/mail.mbox|/MBOX-MESSAGE/1", b"/mail.mbox|/MBOX-MESSAGE/2",
+    for path in (b"/", b"/umn", b"/maps", b"/abs.txt", b"/long.txt", b"/mail.mbox", b"/mail.mbox|/MBOX-MESSAGE/1", b"/mail.mbox|/MBOX-MESSAGE/2",
                  b"/mail.mbox|/MBOX-MESSAGE/3", b"/page.html", b"/page2.html"):
         R.append(("gopherplus:$:" + path.decode(), path + b"\t$\r\n", False))
         R.append(("gopherplus:!:" + path.decode(), path + b"\t!\r\n", False))
@@ -114,7 +120,7 @@ def run(tier):
             payloads.append("".join(rng.choice(atoms) for _ in range(rng.randrange(2, 14))).strip() or "<")
     else:
         rng.shuffle(payloads)
-        payloads = payloads[:14] + ['"><img src=x onerror=alert(1)>'] * (0 if '"><img src=x onerror=alert(1)>' in payloads[:14] else 1)
+        payloads = payloads[:12] + [a for a in ALWAYS if a not in payloads[:12]]
     jobs = []
     meta = []
     for p in payloads:
